@@ -402,6 +402,9 @@ class EventDispatcher(object):
                 "Message {} does not contain valid JSON".format(message.body)
             )
             message.acknowledge(multiple=False)
+            # A ValueError may also come from state_engine.notify, after the
+            # message was retained: it has been dropped so must not be retained.
+            self.unacknowledged_messages.pop(message.message_id, None)
         except Exception as e:
             """
             If state_engine.notify bombs out with an exception it is likely to
@@ -416,6 +419,8 @@ class EventDispatcher(object):
                 )
             )
             message.acknowledge(multiple=False)
+            # The message has been dropped so it must no longer be retained.
+            self.unacknowledged_messages.pop(message.message_id, None)
 
     def acknowledge(self, id):
         """
